@@ -534,6 +534,26 @@ pub fn run(ctx: &mut Ctx, o: &AttackOpts) {
                 go(ctx, &m3, false);
             }
         }
+        // a validly SIGNED ill-formed sibling of the credential (the issuer's payload with the last top-level digest repeated,
+        // re-signed with the issuer key): it fails inside disclosure processing, after digests have been looked at
+        if fam == "disc" {
+            let p: Vec<&str> = full.jwt.split('.').collect();
+            if let Some(mut pl) = unb64(p[1]).and_then(|b| serde_json::from_slice::<Value>(&b).ok()) {
+                if let Some(sd) = pl.get_mut("_sd").and_then(|x| x.as_array_mut()) {
+                    if let Some(last) = sd.last().cloned() {
+                        sd.push(last);
+                        let msg_text = format!("{}.{}", p[0], b64(pl.to_string().as_bytes()));
+                        let sig = jsonwebtoken::crypto::sign(msg_text.as_bytes(), &crate::keys::enc(key), alg.parse().unwrap()).unwrap();
+                        let jwt = format!("{}.{}", msg_text, sig);
+                        ctx.emit(crate::jt::obj(&[("ev", crate::jt::qs("AdvSign")), ("key", crate::jt::qs(key)), ("alg", crate::jt::qs(alg)), ("id", crate::jt::qs(&jwt))]));
+                        let mut x = full.clone();
+                        x.jwt = jwt;
+                        x.kb = None;
+                        go(ctx, &x, false);
+                    }
+                }
+            }
+        }
         // the untouched presentation once more, AFTER everything this thread has verified and refused in this case: nothing
         // a verifier saw before (digests recorded by a run that failed half-way, cached values) may change its decision
         go(ctx, &m, true);
